@@ -610,7 +610,8 @@ impl FatVolume {
                         lfn_buffer.push(&buffer);
                         SeqState::Complete { csum }
                     }
-                    (true, sequence, _) if sequence >= 0x02 && sequence < 0x14 => {
+                    // (a name of 255 characters takes 20 fragments)
+                    (true, sequence, _) if sequence >= 0x02 && sequence <= 0x14 => {
                         lfn_buffer.clear();
                         lfn_buffer.push(&buffer);
                         SeqState::Remaining {
@@ -623,7 +624,7 @@ impl FatVolume {
                         SeqState::Complete { csum }
                     }
                     (false, sequence, SeqState::Remaining { csum, next })
-                        if sequence >= 0x01 && sequence < 0x13 && next == sequence =>
+                        if sequence >= 0x01 && sequence < 0x14 && next == sequence =>
                     {
                         lfn_buffer.push(&buffer);
                         SeqState::Remaining {
